@@ -17,14 +17,31 @@ type fieldShape struct {
 }
 
 type Envelope struct {
-	Alloc   *ssa.Alloc
-	Fn      *ssa.Function // function containing the allocation
+	Alloc   *ssa.Alloc // the allocation (inside the constructor helper when Via != nil)
+	Via     *ssa.Call  // call of the constructor helper that creates this envelope instance, if any
+	Fn      *ssa.Function // function in which the envelope instance is created and completed
 	Side    string        // client | server | other
 	Fields  map[string]*fieldShape
-	Header  *ssa.Alloc // nested header literal, if the Header field is a local allocation
+	Header  ssa.Value // nested header object root (local literal or constructor-helper call), if any
 	HFields map[string]*fieldShape
 	Sinks   []ssa.Instruction // instructions through which the envelope leaves the function
 	Key     string
+}
+
+// Root: the SSA value that is this envelope instance in Fn.
+func (e *Envelope) Root() ssa.Value {
+	if e.Via != nil {
+		return e.Via
+	}
+	return e.Alloc
+}
+
+// At: an instruction locating the instance (for positions and facts).
+func (e *Envelope) At() ssa.Instruction {
+	if e.Via != nil {
+		return e.Via
+	}
+	return e.Alloc
 }
 
 var rpcFields = []string{"Id", "Header", "Status", "Body", "Trailer", "Reset_"}
@@ -43,9 +60,9 @@ func (p *Prog) sideOf(f *ssa.Function) string {
 
 // sinksOf: uses of the allocation as a whole (call argument, return, send, store elsewhere), including
 // through loads of single-assignment cells and captures.
-func (p *Prog) sinksOf(a *ssa.Alloc) []ssa.Instruction {
+func (p *Prog) sinksOf(root ssa.Value) []ssa.Instruction {
 	var out []ssa.Instruction
-	for _, al := range p.cellAliases(a) {
+	for _, al := range p.rootAliases(root) {
 		refs := al.Referrers()
 		if refs == nil {
 			continue
@@ -98,7 +115,7 @@ func (p *Prog) sinksOf(a *ssa.Alloc) []ssa.Instruction {
 	return out
 }
 
-func (p *Prog) shapeOf(a *ssa.Alloc, fields []string, sinks []ssa.Instruction) map[string]*fieldShape {
+func (p *Prog) shapeOf(a ssa.Value, fields []string, sinks []ssa.Instruction) map[string]*fieldShape {
 	e := p.Origins()
 	m := map[string]*fieldShape{}
 	for _, f := range fields {
@@ -113,12 +130,22 @@ func (p *Prog) shapeOf(a *ssa.Alloc, fields []string, sinks []ssa.Instruction) m
 				}
 			}
 			dom := len(sinks) > 0
-			for _, sk := range sinks {
-				if sk.Parent() != s.Parent() || sk.Block() == sk.Parent().Recover {
-					continue
+			if ca := p.ctorCall(a); ca != nil && s.Parent() == ca.Parent() {
+				// a store inside the constructor helper: it must dominate the helper's returns
+				dom = true
+				for _, r := range returnsOf(ca.Parent()) {
+					if !instrDominates(s, r) {
+						dom = false
+					}
 				}
-				if !instrDominates(s, sk) {
-					dom = false
+			} else {
+				for _, sk := range sinks {
+					if sk.Parent() != s.Parent() || sk.Block() == sk.Parent().Recover {
+						continue
+					}
+					if !instrDominates(s, sk) {
+						dom = false
+					}
 				}
 			}
 			if dom {
@@ -130,9 +157,74 @@ func (p *Prog) shapeOf(a *ssa.Alloc, fields []string, sinks []ssa.Instruction) m
 	return m
 }
 
-// Envelopes: every constructed envelope in scope (Rpc allocations that have at least one field store).
+// Envelopes: every constructed envelope instance in scope: Rpc allocations that have at least one field store,
+// and calls of constructor helpers that return such an allocation (one instance per call site).
 func (p *Prog) Envelopes() []*Envelope {
+	if p.envMemo != nil {
+		return p.envMemo
+	}
 	var out []*Envelope
+	build := func(env *Envelope) {
+		root := env.Root()
+		env.Side = p.sideOf(env.Fn)
+		env.Sinks = p.sinksOf(root)
+		env.Fields = p.shapeOf(root, rpcFields, env.Sinks)
+		if hs := env.Fields["Header"].Stores; len(hs) == 1 {
+			if ha, isAl := hs[0].Val.(*ssa.Alloc); isAl && env.Via != nil && ha.Parent() == env.Alloc.Parent() {
+				// the header literal lives inside the constructor helper; the caller may complete it through
+				// <instance>.Header.<field>: keep that instance-sensitive
+				env.Header = ha
+				env.HFields = map[string]*fieldShape{}
+				for _, hf := range hdrFields {
+					fs := &fieldShape{Origins: TermSet{}}
+					for _, st := range p.allocFieldStoresRaw(ha, hf) {
+						if st.Parent() == ha.Parent() {
+							fs.Stores = append(fs.Stores, st)
+							dom := true
+							for _, r := range returnsOf(ha.Parent()) {
+								if !instrDominates(st, r) {
+									dom = false
+								}
+							}
+							if dom {
+								fs.Must = true
+							}
+						}
+					}
+					for _, st := range p.nestedFieldStores(env.Via, "Header", hf) {
+						fs.Stores = append(fs.Stores, st)
+						dom := len(env.Sinks) > 0
+						for _, sk := range env.Sinks {
+							if sk.Parent() == st.Parent() && !instrDominates(st, sk) {
+								dom = false
+							}
+						}
+						if dom {
+							fs.Must = true
+						}
+					}
+					for _, st := range fs.Stores {
+						o := p.Origins().Of(st.Val)
+						fs.Origins.addAll(o)
+						for _, t := range o {
+							if t.Op == "const" && t.Name == "nil" {
+								fs.MaybeNil = true
+							}
+						}
+					}
+					env.HFields[hf] = fs
+				}
+			} else if hr := p.rootOfBase(hs[0].Val); hr != nil {
+				env.Header = hr
+				env.HFields = p.shapeOf(hr, hdrFields, env.Sinks)
+			} else if ha := p.Origins().localAlloc(hs[0].Val); ha != nil {
+				env.Header = ha
+				env.HFields = p.shapeOf(ha, hdrFields, env.Sinks)
+			}
+		}
+		env.Key = p.fnKey(env.Fn) + ":" + env.ShapeString()
+		out = append(out, env)
+	}
 	for _, f := range p.Funcs {
 		allInstrs(f, func(i ssa.Instruction) {
 			a, ok := i.(*ssa.Alloc)
@@ -148,23 +240,24 @@ func (p *Prog) Envelopes() []*Envelope {
 			if !hasStore {
 				return
 			}
-			env := &Envelope{Alloc: a, Fn: f, Side: p.sideOf(f)}
-			env.Sinks = p.sinksOf(a)
-			env.Fields = p.shapeOf(a, rpcFields, env.Sinks)
-			if hs := env.Fields["Header"].Stores; len(hs) == 1 {
-				if ha, ok := hs[0].Val.(*ssa.Alloc); ok {
-					env.Header = ha
-					env.HFields = p.shapeOf(ha, hdrFields, env.Sinks)
-				} else if ha := p.Origins().localAlloc(hs[0].Val); ha != nil {
-					env.Header = ha
-					env.HFields = p.shapeOf(ha, hdrFields, env.Sinks)
+			if p.ctorAlloc(f) == a {
+				// a constructor helper: one envelope instance per call site
+				n := 0
+				for _, cs := range p.Callers(f) {
+					if call, ok := cs.instr.(*ssa.Call); ok {
+						n++
+						build(&Envelope{Alloc: a, Via: call, Fn: cs.caller})
+					}
+				}
+				if n > 0 {
+					return
 				}
 			}
-			env.Key = p.fnKey(f) + ":" + env.ShapeString()
-			out = append(out, env)
+			build(&Envelope{Alloc: a, Fn: f})
 		})
 	}
-	sort.Slice(out, func(i, j int) bool { return out[i].Key < out[j].Key })
+	sort.SliceStable(out, func(i, j int) bool { return out[i].Key < out[j].Key })
+	p.envMemo = out
 	return out
 }
 
@@ -183,4 +276,46 @@ func (e *Envelope) ShapeString() string {
 		parts = append(parts, s)
 	}
 	return strings.Join(parts, "+")
+}
+
+// nestedFieldStores: stores to <root>.<outer>.<inner> made through the bases of root in its user function
+// (e.g. rpc.Header.Headers = … where rpc is a constructor-helper call).
+func (p *Prog) nestedFieldStores(root ssa.Value, outer, inner string) []*ssa.Store {
+	var out []*ssa.Store
+	for b := range p.allocBases(root) {
+		refs := b.Referrers()
+		if refs == nil {
+			continue
+		}
+		for _, r := range *refs {
+			fa, ok := r.(*ssa.FieldAddr)
+			if !ok || fa.X != b || fieldName(fa) != outer {
+				continue
+			}
+			if fr := fa.Referrers(); fr != nil {
+				for _, u := range *fr {
+					ld, ok := u.(*ssa.UnOp)
+					if !ok || ld.X != ssa.Value(fa) {
+						continue
+					}
+					if lr := ld.Referrers(); lr != nil {
+						for _, u2 := range *lr {
+							fa2, ok := u2.(*ssa.FieldAddr)
+							if !ok || fa2.X != ssa.Value(ld) || fieldName(fa2) != inner {
+								continue
+							}
+							if f2 := fa2.Referrers(); f2 != nil {
+								for _, u3 := range *f2 {
+									if st, ok := u3.(*ssa.Store); ok && st.Addr == ssa.Value(fa2) {
+										out = append(out, st)
+									}
+								}
+							}
+						}
+					}
+				}
+			}
+		}
+	}
+	return out
 }
